@@ -241,7 +241,60 @@ std::string dump_forest()
   return out;
 }
 
-std::string done(std::string const &head) { return head + " | " + dump_forest(); }
+std::string dump_ret(tree &r)
+{
+  std::string out;
+  bool all_ok = true;
+  unsigned alt = 0;
+  dump_t<tree>(r, nullptr, out, all_ok, alt);
+  if (all_ok && !levels_ok(r, 0))
+    out += " LEVEL-MISMATCH";
+  return out;
+}
+
+// object identity across one operation: the addresses of all objects (pre-order) before the operation ...
+std::vector<tree const *> before;
+
+void addrs_t(tree const &t, std::vector<tree const *> &out)
+{
+  out.push_back(&t);
+  for (auto const &c : t.children())
+    addrs_t(c, out);
+}
+
+std::vector<tree const *> all_addrs()
+{
+  std::vector<tree const *> out;
+  for (auto const &t : forest)
+    addrs_t(*t, out);
+  return out;
+}
+
+// ... and for every object afterwards the index it had before, "n" for a new one.  (An address freed during the operation is
+// not handed out again during the same operation: the sanitizer's allocator quarantines freed chunks.)
+std::string ident_str()
+{
+  std::vector<tree const *> const after = all_addrs();
+  if (after == before)
+    return "=";
+  std::string r;
+  for (std::size_t k = 0; k < after.size(); ++k)
+  {
+    if (k)
+      r += ',';
+    std::size_t idx = before.size();
+    for (std::size_t j = 0; j < before.size(); ++j)
+      if (before[j] == after[k])
+      {
+        idx = j;
+        break;
+      }
+    r += idx == before.size() ? std::string{"n"} : std::to_string(idx);
+  }
+  return r;
+}
+
+std::string done(std::string const &head) { return head + " | " + dump_forest() + " @" + ident_str(); }
 
 std::string int_list(std::vector<int> const &v)
 {
@@ -527,7 +580,8 @@ int key_of(int k, int v)
 std::string handle_impl(std::vector<std::string> const &t)
 {
   bool const full = forest.size() >= max_roots;
-  std::size_t const cnt = count();
+  before = all_addrs();
+  std::size_t const cnt = before.size();
   bool const big = cnt >= grow_cap;
   if (t.size() == 1 && t[0] == "reset")
   {
@@ -710,9 +764,14 @@ std::string handle_impl(std::vector<std::string> const &t)
       bool const keep = std::stoull(x) != 0 && !full;
       tree::optional_object r{cmd == "popb" ? a.pop_back() : a.pop_front()};
       bool const has = r.has_value();
+      // the returned object as the caller gets it, before it is moved anywhere: no parent, its children name it
+      std::string ret = "none";
       if (has)
+      {
+        ret = dump_ret(r.get_unsafe());
         keep_or_drop(std::move(r.get_unsafe()), keep);
-      return done("ok a=" + sa + (has ? " some" : " none"));
+      }
+      return done("ok a=" + sa + " ret=" + ret);
     }
     if (cmd == "erase")
     {
@@ -888,8 +947,9 @@ std::string handle_impl(std::vector<std::string> const &t)
     std::size_t const i = static_cast<std::size_t>(std::stoull(x) % len);
     bool const keep = std::stoull(y) != 0 && !full;
     tree r{a.release(it_at(a, i))};
+    std::string const ret = dump_ret(r);
     keep_or_drop(std::move(r), keep);
-    return done("ok a=" + sa + " i=" + std::to_string(i));
+    return done("ok a=" + sa + " i=" + std::to_string(i) + " ret=" + ret);
   }
   if (cmd == "eraser")
   {
